@@ -190,3 +190,28 @@ def check_facade_stateless(db, chk, rule: str, methods: Iterable[str]) -> None:
                found=sorted(set(bad)) + decos or "stateless", accepted="every call recomputes from self.t and its arguments",
                why="a result cache keyed by (rank, streams, ...) but not by every argument (e.g. consecutive_kernel_delay) answers a later call with the earlier call's result",
                key=f"{FACADE}:TraceAnalysis.{name}|facade-state")
+
+
+ANALYZER_MODULES = ("hta.analyzers.breakdown_analysis", "hta.analyzers.communication_analysis", "hta.analyzers.critical_path_analysis", "hta.analyzers.trace_counters",
+                    "hta.analyzers.cuda_kernel_analysis", "hta.analyzers.cupti_counter_analysis", "hta.analyzers.straggler_analysis", "hta.analyzers.timeline", "hta.trace_diff")
+
+
+def check_shared_trace_untouched(db, chk, rule: str) -> None:
+    """Every analysis reads the ONE Trace object of the TraceAnalysis session. A property about one analysis therefore also needs that NO other
+    analysis replaces or edits the containers of that object (through a parameter, an alias or a shallow copy): otherwise the result depends on
+    which analyses ran before."""
+    n = 0
+    for mn in ANALYZER_MODULES:
+        if mn not in db.modules:
+            continue
+        mod = db.mod(mn)
+        for q, f in _top_functions(mod):
+            ps = [p for p in H.param_names(f) if p in TRACE_PARAMS and p != "self"]
+            if not ps:
+                continue
+            n += 1
+            pm = H.param_container_mutations(f, ps)
+            if pm:
+                chk.ob(rule, f"{mn}:{q} leaves the session's Trace object untouched", False, mod.loc(f), found=pm, accepted="deepcopy before replacing a rank's frame",
+                       why="after this analysis every other analysis of the session (this property's included) sees the replaced frame", key=f"{mn}:{q}|shared-trace")
+    chk.ob(rule, f"no analysis of the session edits the shared Trace object graph ({n} functions taking a Trace scanned)", n >= 20, "hta/analyzers", found=n, accepted=">= 20 functions scanned", nontrivial=False)
